@@ -494,8 +494,12 @@ __goon:
 	for {
 		switch l.next() {
 		case utf8.RuneError:
-			l.errorf("invalid UTF-8 rune")
-			return lexRawString
+			// width 1 is an invalid byte; a correctly encoded U+FFFD (width 3)
+			// is an ordinary character
+			if l.width == 1 {
+				l.errorf("invalid UTF-8 rune")
+				return lexRawString
+			}
 		case eof:
 			l.errorf("unterminated raw string")
 			return lexRawString
